@@ -174,7 +174,7 @@ def _to(libs, t, *a, **k):
 def _nonlin(name):
     def m(libs, t, *a, **k):
         from . import nonlin
-        return nonlin.pointwise(name, t, *a)
+        return nonlin.pointwise(name, t, *a, **k)
     return m
 
 
